@@ -320,4 +320,132 @@ theorem groupFindOne_spec (g : Grp) (nm : Nat) (keys : List Nat) (dflt : Val) (q
         exact (perModel_default_iff g keys dflt q m' hs).mp (by simpa using this)
       · simp [hx, perModel_hits g keys dflt q m hne]
 
+/-! ## back references -/
+
+def stepG (g : Grp) (sel : Dev → Bool) (pos : Dev → Nat) (acc : List (List Idx)) (r : Idx × Val) :
+    List (List Idx) :=
+  match r.2 with
+  | none => acc
+  | some t =>
+    match lookup g t with
+    | none => acc
+    | some d => if sel d then appendAt acc (pos d) r.1 else acc
+
+theorem getElem?_inj_of_nodup {α} {L : List α} (hn : L.Nodup) {a b : Nat} {x : α}
+    (ha : L[a]? = some x) (hb : L[b]? = some x) : a = b := by
+  obtain ⟨ha', ea⟩ := List.getElem?_eq_some_iff.mp ha
+  obtain ⟨hb', eb⟩ := List.getElem?_eq_some_iff.mp hb
+  exact (List.Nodup.getElem_inj_iff hn).mp (ea.trans eb.symm)
+
+theorem stepG_getElem? (g : Grp) (hn : (used g).Nodup) (sel : Dev → Bool) (pos : Dev → Nat) (L : Grp)
+    (hLn : L.Nodup)
+    (hL : ∀ d', d' ∈ g → sel d' = true → L[pos d']? = some d')
+    (hsub : ∀ d, d ∈ L → d ∈ g ∧ sel d = true)
+    (acc : List (List Idx)) (r : Idx × Val) (k : Nat) (d : Dev) (hk : L[k]? = some d) :
+    (stepG g sel pos acc r)[k]? =
+      (acc[k]?).map (· ++ (if r.2 = some d.idx then [r.1] else [])) := by
+  have hdL : d ∈ L := List.mem_of_getElem? hk
+  obtain ⟨hdg, hds⟩ := hsub d hdL
+  unfold stepG
+  cases h2 : r.2 with
+  | none => simp
+  | some t =>
+    simp only
+    cases hl : lookup g t with
+    | none =>
+      have : t ≠ d.idx := by
+        intro e; subst e; rw [lookup_of_mem hn hdg] at hl; cases hl
+      simp [this]
+    | some d' =>
+      obtain ⟨hd'g, hd'i⟩ := lookup_some hl
+      simp only
+      by_cases ht : t = d.idx
+      · subst ht
+        have : d' = d := by
+          have := lookup_of_mem hn hdg; rw [hl] at this; exact Option.some.inj this
+        subst this
+        have hp : pos d' = k := getElem?_inj_of_nodup hLn (hL d' hdg hds) hk
+        simp [hds, appendAt, hp]
+      · have hne : d' ≠ d := by intro e; subst e; exact ht hd'i.symm
+        by_cases hs : sel d' = true
+        · have hp : pos d' ≠ k := by
+            intro e
+            have := hL d' hd'g hs
+            rw [e, hk] at this
+            exact hne (Option.some.inj this).symm
+          have ht' : ¬ (some t = some d.idx) := by simpa using ht
+          simp [hs, appendAt, hp, ht']
+        · have ht' : ¬ (some t = some d.idx) := by simpa using ht
+          simp [hs, ht']
+
+theorem foldl_stepG (g : Grp) (hn : (used g).Nodup) (sel : Dev → Bool) (pos : Dev → Nat) (L : Grp)
+    (hLn : L.Nodup)
+    (hL : ∀ d', d' ∈ g → sel d' = true → L[pos d']? = some d')
+    (hsub : ∀ d, d ∈ L → d ∈ g ∧ sel d = true)
+    (refs : List (Idx × Val)) : ∀ (acc : List (List Idx)) (k : Nat) (d : Dev), L[k]? = some d →
+      (refs.foldl (stepG g sel pos) acc)[k]? =
+        (acc[k]?).map (· ++ (refs.filter (fun r => decide (r.2 = some d.idx))).map (·.1)) := by
+  induction refs with
+  | nil => intro acc k d _; simp
+  | cons r rs ih =>
+    intro acc k d hk
+    rw [List.foldl_cons, ih _ k d hk, stepG_getElem? g hn sel pos L hLn hL hsub acc r k d hk]
+    cases acc[k]? with
+    | none => simp
+    | some l =>
+      by_cases hr : r.2 = some d.idx
+      · simp [hr]
+      · simp [hr]
+
+theorem nodup_of_used_nodup {L : Grp} (h : (used L).Nodup) : L.Nodup := List.Nodup.of_map _ h
+
+theorem setBackref_eq (g : Grp) : setBackref g = stepG g (fun _ => true) Dev.guid := by
+  funext acc r
+  unfold setBackref stepG
+  cases r.2 with
+  | none => rfl
+  | some t => simp only; cases hl : lookup g t <;> simp
+
+theorem setBackrefM_eq (g : Grp) (m : Nat) :
+    setBackrefM g m = stepG g (fun d => decide (d.mdl = m)) Dev.muid := by
+  funext acc r
+  unfold setBackrefM stepG
+  cases r.2 with
+  | none => rfl
+  | some t => simp only; cases hl : lookup g t <;> simp
+
+/-- the referrers that name `i`, in order -/
+def pointingTo (refs : List (Idx × Val)) (i : Idx) : List Idx :=
+  (refs.filter (fun r => decide (r.2 = some i))).map (·.1)
+
+theorem collectRef_getElem? (g : Grp) (hI : Inv g) (refs : List (Idx × Val)) (k : Nat) (d : Dev)
+    (hk : g[k]? = some d) : (collectRef g refs)[k]? = some (pointingTo refs d.idx) := by
+  unfold collectRef pointingTo
+  rw [setBackref_eq, foldl_stepG g hI.nodup _ _ g (nodup_of_used_nodup hI.nodup)
+    (fun d' hd' _ => getElem?_of_guid hI hd') (fun d hd => ⟨hd, rfl⟩) refs _ k d hk]
+  have hlt : k < g.length := (List.getElem?_eq_some_iff.mp hk).1
+  simp [hlt]
+
+theorem mem_rowsOf {g : Grp} {m : Nat} {d : Dev} : d ∈ rowsOf g m ↔ d ∈ g ∧ d.mdl = m := by
+  unfold rowsOf; simp [List.mem_filter]
+
+theorem rowsOf_muid {g : Grp} (hI : Inv g) {d : Dev} (hd : d ∈ g) : (rowsOf g d.mdl)[d.muid]? = some d := by
+  obtain ⟨k, hk⟩ := List.getElem?_of_mem hd
+  rw [hI.muid k d hk]
+  exact rowsOf_take_length hk
+
+theorem collectRefM_getElem? (g : Grp) (hI : Inv g) (m : Nat) (refs : List (Idx × Val)) (k : Nat) (d : Dev)
+    (hk : (rowsOf g m)[k]? = some d) : (collectRefM g m refs)[k]? = some (pointingTo refs d.idx) := by
+  unfold collectRefM pointingTo
+  rw [setBackrefM_eq, foldl_stepG g hI.nodup _ _ (rowsOf g m)
+    (nodup_of_used_nodup (rowsOf_nodup hI.nodup m))
+    (fun d' hd' hs => by
+      have : d'.mdl = m := by simpa using hs
+      subst this; exact rowsOf_muid hI hd')
+    (fun d hd => by
+      have := mem_rowsOf.mp hd
+      exact ⟨this.1, by simpa using this.2⟩) refs _ k d hk]
+  have hlt : k < (rowsOf g m).length := (List.getElem?_eq_some_iff.mp hk).1
+  simp [hlt]
+
 end Andes.Registry
